@@ -184,16 +184,22 @@ def rep(lo: int, hi: int | None, body: Any) -> Any:
 class Parsed:
     """A regex constant converted to algebraic form."""
 
-    def __init__(self, pattern: str | bytes, flags: int = 0) -> None:
+    def __init__(self, pattern: str | bytes, flags: int = 0, dotall: bool = True) -> None:
+        # dotall=True: the text is a fragment that the library embeds in `(?s:...)`; False: a stand-alone regex whose `.`
+        # excludes the newline unless its own flags / scoped `(?s:` groups say otherwise
+        self._dotall = [bool(dotall or (flags & re.S))]
         self.is_bytes = isinstance(pattern, bytes)
         self.text = pattern.decode('latin-1') if isinstance(pattern, bytes) else pattern
         self.universe = 255 if self.is_bytes else MAXCP
         self.ngroups = 0
         self.has_lookbehind = False
         try:
-            tree = _parser.parse(self.text, flags & ~re.DOTALL | re.DOTALL)
+            tree = _parser.parse(self.text, flags)
         except re.error as e:
             raise RxParseError(str(e)) from e
+        if tree.state.flags & re.S and not self._dotall[0]:
+            # a global inline (?s) flag: convert again with DOTALL on
+            self._dotall = [True]
         self.ngroups = tree.state.groups - 1
         self.ignorecase = bool((flags | tree.state.flags) & re.I)
         self.node = self._conv_seq(tree)
@@ -248,14 +254,20 @@ class Parsed:
         if op is C.NOT_LITERAL:
             return ('lit', cs_compl(self._fold(((av, av),)), self.universe))
         if op is C.ANY:
-            return ('lit', ((0, self.universe),))
+            if self._dotall[-1]:
+                return ('lit', ((0, self.universe),))
+            return ('lit', cs_compl(((10, 10),), self.universe))
         if op is C.IN:
             return ('lit', self._fold(self._class(av)))
         if op is C.BRANCH:
             return alt(self._conv_seq(b) for b in av[1])
         if op is C.SUBPATTERN:
             group, add, dele, sub = av
-            body = self._conv_seq(sub)
+            self._dotall.append((self._dotall[-1] or bool(add & re.S)) and not (dele & re.S))
+            try:
+                body = self._conv_seq(sub)
+            finally:
+                self._dotall.pop()
             if group is not None:
                 return ('cap', group, body)
             return body
@@ -289,8 +301,8 @@ class RxParseError(Exception):
 
 
 @lru_cache(maxsize=None)
-def parse(pattern: str | bytes, flags: int = 0) -> Parsed:
-    return Parsed(pattern, flags)
+def parse(pattern: str | bytes, flags: int = 0, dotall: bool = True) -> Parsed:
+    return Parsed(pattern, flags, dotall)
 
 
 # ---------------------------------------------------------------------------------------------- structural facts
